@@ -39,9 +39,23 @@ NO_REV = {k: NONE for k in CSV_METRIC}
 # ------------------------------------------------------------------------------------------------------ benches
 VERIF_TRX = [
     # many narrow carriers: total power well above the design reference, amplifiers en route clamp their gain
+    # its first explored mode (d2) fails BECAUSE OF a chromatic-dispersion penalty, the second (d1) defines no penalty
     {'type_variety': 'VerifDense', 'frequency': {'min': 191.35e12, 'max': 196.1e12}, 'mode': [
+        {'format': 'd2', 'baud_rate': 22e9, 'OSNR': 9, 'bit_rate': 100e9, 'roll_off': 0.15, 'tx_osnr': 40,
+         'min_spacing': 25e9, 'cost': 3,
+         'penalties': [{'chromatic_dispersion': -1e3, 'penalty_value': 0}, {'chromatic_dispersion': 100, 'penalty_value': 14},
+                       {'chromatic_dispersion': 400e3, 'penalty_value': 16}]},
         {'format': 'd1', 'baud_rate': 22e9, 'OSNR': 9, 'bit_rate': 50e9, 'roll_off': 0.15, 'tx_osnr': 40,
          'min_spacing': 25e9, 'cost': 2}]},
+    # a library type mixing a mode WITH impairment penalties (p1: small CD / PMD penalties, feasible) and one WITHOUT
+    {'type_variety': 'VerifMixed', 'frequency': {'min': 191.35e12, 'max': 196.1e12}, 'mode': [
+        {'format': 'p1', 'baud_rate': 32e9, 'OSNR': 11, 'bit_rate': 100e9, 'roll_off': 0.15, 'tx_osnr': 40,
+         'min_spacing': 37.5e9, 'cost': 1,
+         'penalties': [{'chromatic_dispersion': -1e3, 'penalty_value': 0}, {'chromatic_dispersion': 100, 'penalty_value': 0.4},
+                       {'chromatic_dispersion': 400e3, 'penalty_value': 2.5},
+                       {'pmd': 0, 'penalty_value': 0}, {'pmd': 100, 'penalty_value': 1}]},
+        {'format': 'p2', 'baud_rate': 32e9, 'OSNR': 13, 'bit_rate': 50e9, 'roll_off': 0.15, 'tx_osnr': 40,
+         'min_spacing': 37.5e9, 'cost': 1}]},
     # thresholds no path of the benches reaches: NO_FEASIBLE_MODE (automatic) and MODE_NOT_FEASIBLE (forced)
     {'type_variety': 'VerifHard', 'frequency': {'min': 191.35e12, 'max': 196.1e12}, 'mode': [
         {'format': 'h1', 'baud_rate': 32e9, 'OSNR': 30, 'bit_rate': 100e9, 'roll_off': 0.15, 'tx_osnr': 40,
@@ -56,7 +70,7 @@ VERIF_TRX = [
 @lru_cache(maxsize=None)
 def bench_equipment(name):
     """'ex' = gnpy/example-data/eqpt_config.json, 'td' = tests/data/eqpt_config.json (+ its advanced amplifier config);
-    both with the two Verif* transceiver types appended (library data only, no code is touched)"""
+    both with the Verif* transceiver types appended (library data only, no code is touched)"""
     import gnpy.tools.json_io as jio
     if name == 'ex':
         ej = jio.load_json(EX / 'eqpt_config.json')
@@ -146,6 +160,16 @@ def crc(obj):
     return zlib.crc32(json.dumps(obj, sort_keys=True, default=repr).encode()) & 0x7fffffff
 
 
+def oms_digest(net):
+    """the element list of every OMS the network's line elements point to (one integer per OMS, in oms_id order)"""
+    seen = {}
+    for n in net.nodes():
+        o = getattr(n, 'oms', None)
+        if o is not None and o.oms_id not in seen:
+            seen[o.oms_id] = crc([e.uid for e in o.el_list])
+    return [seen[k] for k in sorted(seen)]
+
+
 def net_digest(net):
     """network_to_json projected to one 31-bit integer per element (in export order) + one for the connections"""
     from gnpy.tools.json_io import network_to_json
@@ -178,11 +202,14 @@ SITES = {'meshV2+island': ['Lannion_CAS', 'Lorient_KMA', 'Vannes_KBE', 'Rennes_S
 TRX = {'meshV2+island': [('Voyager', 'mode 1', 50e9), ('Voyager', None, 75e9), ('Voyager', None, 50e9),
                          ('Voyager', 'mode 2', 75e9), ('vendorA_trx-type1', 'mode 1', 50e9),
                          ('vendorA_trx-type1', None, 75e9), ('VerifHard', None, 75e9), ('VerifHard', 'h1', 50e9),
-                         ('VerifDense', 'd1', 25e9), ('Voyager', None, 30e9)],
+                         ('VerifDense', 'd1', 25e9), ('Voyager', None, 30e9), ('VerifDense', None, 25e9),
+                         ('VerifMixed', 'p1', 50e9), ('VerifMixed', 'p2', 50e9), ('VerifMixed', None, 50e9)],
        'testTopology': [('Voyager', 'mode 1', 50e9), ('Voyager', None, 75e9), ('Voyager', None, 62.5e9),
                         ('Voyager', 'mode 2', 75e9), ('vendorA_trx-type1', 'PS_SP64_1', 50e9),
                         ('vendorA_trx-type1', None, 75e9), ('Voyager_16QAM', '16QAM', 50e9), ('VerifHard', None, 75e9),
-                        ('VerifHard', 'h1', 50e9), ('VerifDense', 'd1', 25e9), ('Voyager', None, 30e9)]}
+                        ('VerifHard', 'h1', 50e9), ('VerifDense', 'd1', 25e9), ('Voyager', None, 30e9),
+                        ('VerifDense', None, 25e9), ('VerifMixed', 'p1', 50e9), ('VerifMixed', 'p2', 50e9),
+                        ('VerifMixed', None, 50e9)]}
 
 
 def include_candidates(bench):
@@ -191,7 +218,7 @@ def include_candidates(bench):
     return [e['uid'] for e in _topo(split_bench(bench)[0])['elements'] if e['type'] in ('Roadm', 'Edfa', 'Fused')]
 
 
-def variants(base, rng=None):
+def variants(base, rng=None, eq=None):
     """requests that differ from `base` in exactly ONE attribute the user can tell apart, by a small amount: they are
     different requests (never to be merged, each reported with its own figures) that routing / aggregation shortcuts
     keyed on too few attributes would confuse"""
@@ -207,6 +234,14 @@ def variants(base, rng=None):
     v('bidir', lambda r, tb: r.update(bidirectional=not r['bidirectional']))
     v('nch', lambda r, tb: tb.update({'max-nb-of-channel': (tb.get('max-nb-of-channel') or 61) - 1}))
     v('spacing', lambda r, tb: tb.update(spacing=tb['spacing'] + 12.5e9))
+    tb0 = base['path-constraints']['te-bandwidth']
+    if tb0.get('trx_mode') is not None:
+        v('auto', lambda r, tb: tb.update(trx_mode=None))                                  # the same, mode left open
+        if eq is not None:
+            others = [m['format'] for m in eq['Transceiver'][tb0['trx_type']].mode
+                      if m['format'] != tb0['trx_mode'] and m['min_spacing'] <= tb0['spacing']]
+            if others:
+                v('mode', lambda r, tb: tb.update(trx_mode=others[0]))                     # another mode of the type
     ero = base.get('explicit-route-objects', {}).get('route-object-include-exclude')
     if ero:
         def flip(r, tb):
@@ -235,14 +270,79 @@ def near_identical(bench):
                  loadable(bench, [x] + [v for v in variants(x) if v['request-id'].split('~')[1] in keep])) for x in bases]
     if bench.startswith('meshV2'):
         bases = [rq('A', 'Lannion_CAS', 'Lorient_KMA', tx_power=1e-4, power=1e-3, bw=200e9),
+                 rq('D', 'Brest_KLA', 'Lorient_KMA', typ='VerifMixed', mode='p1', bw=200e9),    # mode WITH penalties
                  rq('B', 'Lorient_KMA', 'Lannion_CAS', route=['west edfa in Lorient_KMA to Loudeac'], bw=100e9),
                  rq('C', 'Brest_KLA', 'Rennes_STA', route=['roadm Vannes_KBE'], mode=None, spacing=75e9, bidir=True,
                     bw=300e9)]
     else:
         bases = [rq('A', 'a', 'g', typ='Voyager', mode='mode 1', tx_power=1e-4, power=1e-3, bw=200e9),
+                 rq('D', 'c', 'g', typ='VerifMixed', mode='p1', bw=200e9),
                  rq('B', 'a', 'h', route=['roadm g', 'roadm a', 'roadm g'], bw=100e9),
                  rq('C', 'f', 'b', route=['roadm c'], mode=None, spacing=75e9, bidir=True, bw=300e9)]
-    out = [(f'near-identical-{b["request-id"]}', loadable(bench, [b] + variants(b))) for b in bases]
+    eq = bench_equipment(BENCH_EQPT[bench])
+    return [(f'near-identical-{b["request-id"]}', loadable(bench, [b] + variants(b, eq=eq))) for b in bases]
+
+
+@lru_cache(maxsize=None)
+def route_table(bench):
+    """shortest route between every ordered pair of transceivers of the designed bench: [(uid, element class), ...]"""
+    import networkx as nx
+    from gnpy.core.elements import Transceiver
+    try:
+        net, _ = fresh_network(split_bench(bench)[0])
+    finally:
+        set_sim('')
+    trx = [n for n in net.nodes() if isinstance(n, Transceiver)]
+    out = {}
+    for a in trx:
+        for b in trx:
+            if a is not b:
+                try:
+                    out[(a.uid, b.uid)] = [(e.uid, type(e).__name__) for e in nx.dijkstra_path(net, a, b, weight='weight')]
+                except nx.NetworkXNoPath:
+                    pass
+    return out
+
+
+def oms_segments(route):
+    """the line elements of a route grouped per OMS (between two ROADMs)"""
+    segs, cur = [], []
+    for uid, kind in route:
+        if kind == 'Roadm':
+            if cur:
+                segs.append(cur)
+            cur = []
+        elif kind != 'Transceiver':
+            cur.append((uid, kind))
+    return segs
+
+
+def explicit_route_batches(bench):
+    """include lists that name LINE elements (fibres, amplifiers) of the request's own route - the route is then built
+    from the OMS element lists themselves (explicit_path) - next to bidirectional requests whose reverse direction runs
+    through those very OMS and beyond: X one-OMS explicit route s->m, XL the same LOOSE, X2 explicit route over every
+    OMS s->d, Y bidirectional d->s (its reverse crosses the first OMS of X and continues), Z bidirectional m->s"""
+    table = route_table(bench)
+    out = []
+    for (s, d), route in sorted(table.items()):
+        roadms = [u for u, k in route if k == 'Roadm']
+        segs = oms_segments(route)
+        if len(roadms) < 3 or len(segs) < 2:
+            continue
+        mid = 'trx ' + roadms[1][len('roadm '):]
+        if (s, mid) not in table or [u for u, k in table[(s, mid)] if k == 'Roadm'] != roadms[:2]:
+            continue
+        site = lambda u: u[len('trx '):]                                                    # noqa
+        fibre = next((u for u, k in segs[0] if k == 'Fiber'), segs[0][0][0])
+        per_oms = [next((u for u, k in seg if k in ('Edfa', 'Fiber')), seg[0][0]) for seg in segs]
+        reqs = [rq('X', site(s), site(mid), route=[fibre], bw=100e9),
+                rq('Y', site(d), site(s), bidir=True, bw=200e9),
+                rq('X2', site(s), site(d), route=per_oms, bw=100e9, mode=None, spacing=75e9),
+                rq('XL', site(s), site(mid), route=[fibre], strict=False, bw=300e9, bidir=True),
+                rq('Z', site(mid), site(s), bidir=True, mode=None, spacing=75e9, bw=100e9)]
+        out.append((f'explicit-route-{len(out)}', loadable(bench, reqs)))
+        if len(out) == 2:
+            break
     return out
 
 
@@ -298,6 +398,11 @@ def random_batch(rng, bench, tag, n):
                  'fixM': [(None, nb * pcm)], 'small': [(None, pcm)]}[kind]
         bw = {'two': 2 * nb, 'small': 9}.get(kind, nb) * 100e9
         route = rng.sample(inc, rng.choice([1, 1, 2])) if rng.random() < 0.25 else None
+        own = route_table(bench).get((f'trx {s}', f'trx {d}'))
+        if own and rng.random() < 0.2:                  # line elements of the request's own route, in route order
+            segs = oms_segments(own)
+            picks = [rng.choice(seg)[0] for seg in segs if seg]
+            route = picks if rng.random() < 0.5 else picks[:1]
         out.append(rq(f'{tag}{i}', s, d, typ=typ, mode=mode, spacing=spacing, bw=bw, bidir=rng.random() < 0.4,
                       slots=slots, route=route, strict=rng.random() < 0.5,
                       power=rng.choice([None, 0.001, 0.0015848931924611134])))
@@ -390,6 +495,8 @@ class PlanRecorder(contextlib.AbstractContextManager):
         self.oms = {}
         self.nm = {}
         self.reason = {}
+        self.routeRev = {}     # id(rq) -> [uid] of the propagated reverse path
+        self.omsB = []         # element lists of the OMS (one integer each) when routing starts
         self.raised = {}       # id(rq) -> blocking reasons in the order they were first observed on the request
         self._saved = []
         self._keep = []
@@ -414,6 +521,8 @@ class PlanRecorder(contextlib.AbstractContextManager):
             see(req)
             if path:
                 (rec.fwd if path[0].uid == req.source else rec.rev)[id(req)] = rx_figures(path[-1])
+                if path[0].uid != req.source:
+                    rec.routeRev[id(req)] = [e.uid for e in path]
             return out
 
         def propagate_and_optimize_mode(path, req, equipment):
@@ -426,6 +535,7 @@ class PlanRecorder(contextlib.AbstractContextManager):
             return out
 
         def compute_path_dsjctn(network, equipment, pathreqlist, disjunctions_list):
+            rec.omsB = oms_digest(network)
             out = o_route(network, equipment, pathreqlist, disjunctions_list)
             rec.order = [id(r) for r in pathreqlist]
             rec._keep = list(pathreqlist)
@@ -606,7 +716,7 @@ def planning_api(network, eq, data):
 REFUSALS = ('ServiceError', 'DisjunctionError')       # the code's legitimate "I will not compute this batch"
 
 
-def run_batch(bench, data, name, want_csv=True, via='json'):
+def run_batch(bench, data, name, want_csv=True, via='json', warm=None):
     """planning() on a fresh network under freshly set SimParams, recorded.  via='api': same steps, requests built with
     PathRequest(**params).  Returns a Run with: inputs, entries (per response entry: outcome `o` assembled from the
     captures, projected response entry `e`, CSV row `row`), netB/netA and simB/simA digests, response (raw), exc"""
@@ -614,18 +724,33 @@ def run_batch(bench, data, name, want_csv=True, via='json'):
     from gnpy.tools.json_io import results_to_json
     from gnpy.tools.cli_examples import _path_result_json
     try:
-        return _run_batch(bench, data, name, want_csv, via, planning, results_to_json, _path_result_json)
+        return _run_batch(bench, data, name, want_csv, via, planning, results_to_json, _path_result_json, warm)
     finally:
         set_sim('')
 
 
-def _run_batch(bench, data, name, want_csv, via, planning, results_to_json, _path_result_json):
+def _run_batch(bench, data, name, want_csv, via, planning, results_to_json, _path_result_json, warm=None):
     net, eq = fresh_network(bench)
     run = Run()
     run.name, run.bench, run.data = name, bench, data
     run.inputs = input_table(data, eq)
     set_sim(split_bench(bench)[1])              # input_table / design must not be what is observed
     run.netB, run.net_uids = net_digest(net)
+    run.warm_changed = False
+    if warm:
+        # the designed network has been USED before: these requests were simulated one by one on the network's own
+        # elements (what the single-path simulation does).  Judged only if that left the exported settings untouched.
+        import gnpy.topology.request as R
+        from gnpy.tools.json_io import requests_from_json
+        for q in requests_from_json({'path-request': copy.deepcopy(warm)}, eq):
+            q.nodes_list.append(q.destination)
+            q.loose_list.append('STRICT')
+            pth = R.compute_constrained_path(net, q)
+            if pth and q.baud_rate is not None:
+                R.propagate(pth, q, eq)
+        after, _ = net_digest(net)
+        run.warm_changed = after != run.netB
+        run.netB = after
     run.simB = sim_digest()
     run.exc = None
     run.refused = False
@@ -649,6 +774,10 @@ def _run_batch(bench, data, name, want_csv, via, planning, results_to_json, _pat
         return run
     run.netA, _ = net_digest(net)
     run.simA = sim_digest()
+    omsA = oms_digest(net)                      # the OMS element lists are part of the designed network
+    if len(omsA) == len(rec.omsB):
+        run.netB, run.netA = run.netB + rec.omsB, run.netA + omsA
+        run.net_uids = run.net_uids + [f'<oms {k}>' for k in range(len(omsA))]
     run.response = response
     run.same_writer = response == response2
     run.csv_exc = None
@@ -674,7 +803,7 @@ def _run_batch(bench, data, name, want_csv, via, planning, results_to_json, _pat
                  type=first['type'], mode=mode, auto=sel is not None,
                  hasRx=k in rec.fwd, rx=rec.fwd.get(k, dict(NO_RX)), hasRev=k in rec.rev, rxRev=rec.rev.get(k, dict(NO_RX)),
                  power=first['power'], powerudbm=first['powerudbm'], mi=mode_info(eq, first['type'], mode),
-                 oms=rec.oms.get(k, []))
+                 oms=rec.oms.get(k, []), routeRev=rec.routeRev.get(k, []))
         row = rows[i] if i < len(rows) else None
         run.entries.append(dict(o=o, e=e, row=row))
     run.nrows = len(rows)
@@ -707,8 +836,8 @@ def units_by_key(inputs, data):
 
 EMPTY_ROW = dict(idstr='', src='', dst='', bw=NONE, passf='', nbtsp=NONE, cost=NONE, type='', mode='', bitrate=NONE,
                  thr=NONE, baud=NONE, power=NONE, path=[], nm=[], m={k: NONE for k in CSV_METRIC}, rev=dict(NO_REV))
-NO_CORE = dict(found=False, reason='', route=[], mode='', metric=dict(NO_M), hasZA=False, za=dict(NO_M),
-               rx=dict(NO_RX), rxRev=dict(NO_RX), nm=[])
+NO_CORE = dict(found=False, reason='', route=[], routeRev=[], mode='', metric=dict(NO_M), hasZA=False, za=dict(NO_M),
+               rx=dict(NO_RX), rxRev=dict(NO_RX), nm=[], hasRow=False, row=EMPTY_ROW)
 NO_C16 = dict(has=False, exp='', cur=NO_CORE, solo=NO_CORE, unit=0, hasRef=False, ref=NO_CORE)
 
 
@@ -717,7 +846,8 @@ def core_of(ent):
     o, e = ent['o'], ent['e']
     return dict(found=True, reason=e['reason'], route=[x['uid'] for x in e['objs'] if x['k'] == 'hop'],
                 mode=next((x['mode'] for x in e['objs'] if x['k'] == 'trx'), ''), metric=e['metric'], hasZA=e['hasZA'],
-                za=e['za'], rx=o['rx'], rxRev=o['rxRev'], nm=o['nm'])
+                za=e['za'], rx=o['rx'], rxRev=o['rxRev'], nm=o['nm'], routeRev=o['routeRev'],
+                hasRow=ent['row'] is not None, row=ent['row'] or EMPTY_ROW)
 
 
 def trace_of(run, c16=None, j19=True):
